@@ -66,8 +66,15 @@ TABLE = {
 }
 
 
+
+GUARDED = [
+    ('InlineTrans', 'validate'),
+]
+
 def check(idx, run):
     run.explanation = __doc__
+    from sa.guards import check_guards
+    check_guards(idx, run, "C07.R6", GUARDED)
     check_table(idx, run, "C07.R1", TABLE)
     cls = idx.get_class("InlineTrans")
     app = cls.methods["apply"]
